@@ -134,7 +134,10 @@ def real_shard(seed, n, tier="quick"):
     @st.composite
     def progs(draw):
         ending = draw(st.sampled_from(["release_all_then_exit", "exit", "exception", "os_exit", "sigkill", "broken_then_exit"]))
-        kinds = [k for k in KINDS if not (ending in ("sigkill", "os_exit") and k == "executor")]
+        werror = draw(st.sampled_from([False, False, False, True]))
+        kinds = [k for k in KINDS if not ((werror or ending in ("sigkill", "os_exit")) and k == "executor")]
+        if werror and ending == "broken_then_exit":
+            ending = "exit"
         ops = []
         live = []
         unlinked = set()
@@ -168,7 +171,7 @@ def real_shard(seed, n, tier="quick"):
             ending = "exit"
         if ending == "sigkill":
             ops.insert(draw(st.integers(0, len(ops))), ["pause_for_kill"])
-        return {"ops": ops, "ending": ending, "threads_first": draw(st.sampled_from([0, 0, 2, 4]))}
+        return {"ops": ops, "ending": ending, "threads_first": draw(st.sampled_from([0, 0, 2, 4])), "werror": werror}
 
     @hypothesis.seed(seed)
     @settings(max_examples=n, database=None, deadline=None, suppress_health_check=list(HealthCheck), report_multiple_bugs=False,
@@ -184,6 +187,8 @@ def real_shard(seed, n, tier="quick"):
             nt = any(o[0] == "del" for o in prog["ops"]) or (prog["ending"] != "release_all_then_exit" and any(o[0] == "new" for o in prog["ops"]))
             acc.case(case, nt)
             acc.count("ending:" + prog["ending"])
+            if prog.get("werror"):
+                acc.count("warnings_as_errors")
             for o in prog["ops"]:
                 acc.count("op:" + o[0] + (":" + o[2] if o[0] == "new" else ""))
         if v:
